@@ -26,6 +26,7 @@ def sha(path):
 # ---------------------------------------------------------------- parallel discharge (fork: children inherit the VCs)
 _JOBS = []
 _ENG = None
+REVEALS = {}
 
 
 def _work(k):
@@ -34,11 +35,13 @@ def _work(k):
     try:
         if kind == "inst":
             name, idx, inst, fuel, tmo, params, second = payload
+            _ENG.current_reveals = REVEALS.get(name, ())
             r = solve.discharge(_ENG, inst, timeout_ms=tmo, fuel=fuel, params=params, second_backend=second)
             r["info"] = {k2: v for k2, v in (inst.info or {}).items() if isinstance(v, (str, int))}
             return k, r
         if kind == "canary":
             name, hyps, fuel = payload
+            _ENG.current_reveals = ()
             ok = solve.canary(_ENG, hyps, fuel=fuel)
             return k, {"verdict": "consistent" if ok else "VACUOUS"}
         if kind == "ground":
@@ -149,7 +152,7 @@ def run(args):
             out_of_reach.append((c.key, str(ex)))
     t_vcgen = time.time() - t0
 
-    tmo = 20000 if tier == "quick" else 120000
+    tmo = 60000 if tier == "quick" else 180000
     second = None if tier == "quick" else "z3-4.8"
     _JOBS = []
     ob_index = {}          # name -> dict
@@ -163,6 +166,7 @@ def run(args):
             ob = fr.obligations[name]
             ob_index[name] = {"name": name, "fn": c.key, "kind": ob.kind, "results": [], "contract": c,
                               "n_instances": len(ob.instances)}
+            REVEALS[name] = tuple(c.reveals)
             for i, inst in enumerate(ob.instances):
                 _JOBS.append(("inst", (name, i, inst, c.fuel, int((c.timeout * 1000) if c.timeout else tmo), params, second)))
         for cname, hyps in fr.canaries:
@@ -199,6 +203,7 @@ def run(args):
         else:
             ob["verdict"] = "undecided"
         ob["seconds"] = round(sum(r.get("seconds", 0) for r in ob["results"]), 3)
+        ob["max_instance_s"] = round(max([r.get("seconds", 0) for r in ob["results"]] or [0]), 3)
         ob["backends"] = sorted({r.get("backend", "?") for r in ob["results"]})
 
     n_obl = len(ob_index)
@@ -408,7 +413,8 @@ def run(args):
             "samples": samples,
             "functions_under_contract": fuc,
             "obligation_list": [{"name": o["name"], "verdict": o["verdict"], "instances": o["n_instances"],
-                                 "backends": o["backends"], "seconds": o["seconds"]} for o in ob_index.values()],
+                                 "backends": o["backends"], "seconds": o["seconds"], "max_query_s": o["max_instance_s"]}
+                                for o in ob_index.values()],
             "path_queries": sum(o["n_instances"] for o in ob_index.values()),
             "solver_time_s": solver_time, "vcgen_time_s": round(t_vcgen, 2),
             "assumed_contracts": assumed_contracts,
